@@ -263,6 +263,8 @@ class Program:
                                 init = self.find_method(tgt, "__init__")
                                 if init:
                                     callees.add(init)
+                                tgt = None
+                                continue
                         except AnchorMissing:
                             pass
                 if tgt is None and isinstance(f, ast.Attribute) and isinstance(f.value, ast.Name) \
